@@ -31,6 +31,11 @@ def _const_val(body, op):
         return None
     if o.kind == 'agg' and not o.proj and o.data[2]['agg'] == 'adt' and not o.data[2]['ops']:
         return o.data[2]['variant']
+    if o.kind == 'agg' and not o.proj and o.data[2]['agg'] == 'closure' and not o.data[2]['ops']:
+        # a non-capturing closure used as a fn pointer (`bool_handler(|a, b| a || b)`)
+        key = 'fn:' + o.data[2]['closure']
+        FN_CONSTS[key] = {'k': 'const', 'ty': 'fn', 's': 'closure ' + o.data[2]['closure'], 'closure': o.data[2]['closure']}
+        return key
     return None
 
 
@@ -90,9 +95,29 @@ def elem_value(body, op):
         return v
     o = single_origin(trace_operand(body, op, through_calls=THROUGH))
     if o is not None and o.kind == 'agg' and o.data[2]['agg'] == 'tuple' and not o.proj:
-        vals = tuple(_const_val(body, x) for x in o.data[2]['ops'])
+        vals = tuple(_comp_val(body, x) for x in o.data[2]['ops'])
         if all(v is not None for v in vals):
             return vals
+    return None
+
+
+def _comp_val(body, x):
+    """one component of a table row: a constant, or a handler built on the spot (`Arc::new(closure)`,
+    `factory(fn item)`): ('handler', closure uid, {upvar: constant})"""
+    v = _const_val(body, x)
+    if v is not None:
+        return v
+    prog = getattr(body.facts, '_prog', None)
+    if prog is None:
+        return None
+    clo = handler_closure(prog, body, x)
+    if clo:
+        return ('handler', clo, ())
+    hf = handler_factory(prog, body, x)
+    if hf is not None:
+        bd = {i: _const_val(body, a) for i, a in hf[1].items()}
+        if all(v is not None for v in bd.values()):
+            return ('handler', hf[0], tuple(sorted(bd.items())))
     return None
 
 
@@ -226,6 +251,9 @@ def builtin_rows(prog, rm):
             descs = []
             for a in c.args[1:]:
                 av = arg_values(fb, a)
+                if av is not None and av[0] == 'elem' and all(isinstance(v, tuple) and v and v[0] == 'handler' for v in av[3]):
+                    descs.append(('handler-rows', av))      # the handler is a component of the table row
+                    continue
                 if av is not None:
                     descs.append(av)
                     continue
@@ -261,7 +289,11 @@ def builtin_rows(prog, rm):
             clo = None
             bind = {}
             clo_elem = None
+            clo_rows = None
             for f in fields:
+                if f[0] == 'handler-rows':
+                    clo_rows = f[1]
+                    n = len(clo_rows[3]) if n is None else n
                 if f[0] == 'handler-elem':
                     clo_elem = f[1]
                     n = len(clo_elem[3]) if n is None else n
@@ -279,6 +311,11 @@ def builtin_rows(prog, rm):
                 return None
             leafw = w
             for k in range(n or 1):
+                if clo_rows is not None:
+                    rows.append({'writer': w.name, 'filler': fb.name, 'name': val_of(key, k),
+                                 'args': [val_of(f, k) for f in fields if f[0] not in ('handler', 'handler-elem', 'handler-rows')],
+                                 'closure': clo_rows[3][k][1], 'bind': dict(clo_rows[3][k][2]), 'where': c.where(), 'arity': len(c.args)})
+                    continue
                 rows.append({'writer': w.name, 'filler': fb.name, 'name': val_of(key, k),
                              'args': [val_of(f, k) for f in fields if f[0] not in ('handler', 'handler-elem')],
                              'closure': (clo_elem[3][k][3:] if clo_elem is not None else clo), 'bind': {i: val_of(bv, k) for i, bv in bind.items()}, 'where': c.where(), 'arity': len(c.args)})
